@@ -97,6 +97,7 @@ def nostd_gate():
 
 def run_property(prop, tier, seed):
     t0 = time.time()
+    runner.RUN_TAG = prop
     caps = dict(checks.TIERS[tier])
     for k_, v_ in checks.PROP_CAPS.get(prop, {}).items():
         caps[k_] = max(caps[k_], v_)
